@@ -953,6 +953,28 @@ func checkCookie(c *mc.Ctx, st *stats, cc *CookieCase) {
 			return
 		}
 	}
+	// a response header that receives the string as a Set-Cookie line files it under the cookie's key: the second
+	// parser of the same string (getCookieKey) must find the key Cookie.ParseBytes finds
+	{
+		var rh protocol.ResponseHeader
+		rh.Set("Set-Cookie", string(s))
+		var keys []string
+		rh.VisitAllCookie(func(k, v []byte) { keys = append(keys, string(k)) })
+		if len(keys) != 1 || keys[0] != want.Key {
+			c.Violate("cookie|header-files-under-another-key", fmt.Sprintf("%s: Cookie()=%q; a ResponseHeader that receives it as Set-Cookie files it under %q", desc(), s, keys), cs)
+			return
+		}
+		p := &protocol.Cookie{}
+		p.SetKey(want.Key)
+		if !rh.Cookie(p) {
+			c.Violate("cookie|header-lookup-fails", fmt.Sprintf("%s: Cookie()=%q; ResponseHeader.Cookie with the key %q does not find it", desc(), s, want.Key), cs)
+			return
+		}
+		if d := cookieDiff(want, cookieViewOf(p)); d != "" {
+			c.Violate("cookie|header-roundtrip|"+d, fmt.Sprintf("%s: Cookie()=%q; ResponseHeader.Cookie gives %+v, want %+v", desc(), s, cookieViewOf(p), want), cs)
+			return
+		}
+	}
 	// net/http reads the same cookie (names it accepts: non-empty tokens)
 	if isToken(string(cc.Key)) && !exoticBlank(string(cc.Value)) && !exoticBlank(string(cc.Path)) && !exoticBlank(string(cc.Domain)) {
 		hc, err := http.ParseSetCookie(string(s))
